@@ -38,21 +38,21 @@ TP_VALUES = ["P", "p", "S", "I", "i", "s", "X", ""]
 
 
 def check(ctx):
-    r19_1_parser(ctx)
+    ctx.run(r19_1_parser)
     st = stat_model(ctx)
-    r19_1_stat(ctx, st)
-    r19_2_3(ctx, st)
-    r19_4(ctx, st)
-    r19_5(ctx, st)
-    r19_6(ctx, st)
-    r19_7(ctx, st)
+    ctx.run(r19_1_stat, st)
+    ctx.run(r19_2_3, st)
+    ctx.run(r19_4, st)
+    ctx.run(r19_5, st)
+    ctx.run(r19_6, st)
+    ctx.run(r19_7, st)
     ctx.not_decided.append("floating-point rounding of the two averages (summation order can change the last digits before round())")
     # mechanisms this property rests on (see shared.py): a change there is reported here as well
     from . import shared as _sh
 
-    _sh.gaf_reader(ctx)
-    _sh.tag_parser(ctx)
-    _sh.cli_layer(ctx, "gaftools.cli.stat")
+    ctx.run(_sh.gaf_reader)
+    ctx.run(_sh.tag_parser)
+    ctx.run(_sh.cli_layer, "gaftools.cli.stat")
 
 
 # ---------------------------------------------------------------------------------------------
